@@ -406,18 +406,35 @@ Section Proofs.
   Qed.
 
   (* the session as a whole *)
+  Lemma session_body_trace c input script :
+    match c_sess_auth c with
+    | Some false => session_body T K c input script = [ESessAuth false; EClose CloseError]
+    | Some true => exists t, session_body T K c input script = ESessAuth true :: t /\ trace_ok c t
+    | None => trace_ok c (session_body T K c input script)
+    end.
+  Proof.
+    unfold session_body. destruct (c_sess_auth c) as [[|]|].
+    - eexists; split; [reflexivity|]. apply serve_loop_trace_ok. cbn [rest]. lia.
+    - reflexivity.
+    - apply serve_loop_trace_ok. cbn [rest]. lia.
+  Qed.
+
   Theorem session_trace c input script :
+    c_tls c = None ->
     match c_sess_auth c with
     | Some false => session T K c input script = [ESessAuth false; EClose CloseError]
     | Some true => exists t, session T K c input script = ESessAuth true :: t /\ trace_ok c t
     | None => trace_ok c (session T K c input script)
     end.
-  Proof.
-    unfold session. destruct (c_sess_auth c) as [[|]|].
-    - eexists; split; [reflexivity|]. apply serve_loop_trace_ok. cbn [rest]. lia.
-    - reflexivity.
-    - apply serve_loop_trace_ok. cbn [rest]. lia.
-  Qed.
+  Proof. intros H. unfold session. rewrite H. apply session_body_trace. Qed.
+
+  (* on a TLS connection: both deadlines armed iff configured, then the handshake; if it fails nothing else
+     happens - no callback, no handler, no response - and the connection is closed *)
+  Theorem session_tls c input script ok :
+    c_tls c = Some ok ->
+    session T K c input script =
+      arm_r c ++ arm_w c ++ EHandshake ok :: (if ok then session_body T K c input script else [EClose CloseError]).
+  Proof. intros H. unfold session. rewrite H. reflexivity. Qed.
 
   (* ------------------------------------------------------------------ *)
   (* the response answers the request (C07), item outcomes (C08)        *)
